@@ -410,14 +410,14 @@ theorem c_handleLogon_tail (b : SState) (s1 : Sess) (m : InMsg) (h : Same b s1) 
       | (s, some r) => (s, some (LogonErr.rej r))
       | (s, none) =>
         match verifySelect (if ((if s.cfg.initiator then false else s.cfg.resetOnLogon) || (logonResetFlag m && !s.sentReset)) = true
-              then s.storeReset else s) m false true false with
+              then dropAndReset s else s) m false true false with
         | (s, some r) => (s, some (LogonErr.rej r))
         | (s, none) => logonFinish (logonReply s m (logonResetFlag m)) m) =
     mapSt b (match verifyAppImpl s1 m with
       | (s, some r) => (s, some (LogonErr.rej r))
       | (s, none) =>
         match verifySelect (if ((if s.cfg.initiator then false else s.cfg.resetOnLogon) || (logonResetFlag m && !s.sentReset)) = true
-              then s.storeReset else s) m false true false with
+              then dropAndReset s else s) m false true false with
         | (s, some r) => (s, some (LogonErr.rej r))
         | (s, none) => logonFinish (logonReply s m (logonResetFlag m)) m) := by
   rw [c_verifyAppImpl]
@@ -430,9 +430,9 @@ theorem c_handleLogon_tail (b : SState) (s1 : Sess) (m : InMsg) (h : Same b s1) 
   | none =>
     simp only [mapSt]
     have e3 : (if ((if (s2.setSt b).cfg.initiator then false else (s2.setSt b).cfg.resetOnLogon) || (logonResetFlag m && !(s2.setSt b).sentReset)) = true
-          then (s2.setSt b).storeReset else s2.setSt b) =
+          then dropAndReset (s2.setSt b) else s2.setSt b) =
         (if ((if s2.cfg.initiator then false else s2.cfg.resetOnLogon) || (logonResetFlag m && !s2.sentReset)) = true
-          then s2.storeReset else s2).setSt b := by
+          then dropAndReset s2 else s2).setSt b := by
       by_cases hc : ((if s2.cfg.initiator then false else s2.cfg.resetOnLogon) || (logonResetFlag m && !s2.sentReset)) = true
       · have hc' : ((if (s2.setSt b).cfg.initiator then false else (s2.setSt b).cfg.resetOnLogon) || (logonResetFlag m && !(s2.setSt b).sentReset)) = true := hc
         rw [if_pos hc', if_pos hc]; rfl
@@ -440,7 +440,7 @@ theorem c_handleLogon_tail (b : SState) (s1 : Sess) (m : InMsg) (h : Same b s1) 
         rw [if_neg hc', if_neg hc]
     rw [e3]
     generalize hs3 : (if ((if s2.cfg.initiator then false else s2.cfg.resetOnLogon) || (logonResetFlag m && !s2.sentReset)) = true
-        then s2.storeReset else s2) = s3
+        then dropAndReset s2 else s2) = s3
     have q3 : Q 0 s1 s3 := by rw [← hs3]; exact hv.trans0 (by q_peel)
     rw [c_verifySelect b s3 m _ _ _ (h.of_Q q3)]
     generalize verifySelect s3 m false true false = r2
@@ -813,7 +813,7 @@ theorem hb_handleLogon (s s' : Sess) (m : InMsg) (r : Option LogonErr) (h : hand
       rw [heq] at hv hq
       simp only [] at hv hq h
       generalize hs3 : (if ((if s2.cfg.initiator = true then false else s2.cfg.resetOnLogon) || logonResetFlag m && !s2.sentReset) = true
-          then s2.storeReset else s2) = s3 at h
+          then dropAndReset s2 else s2) = s3 at h
       have e3 : s3.hb = s2.hb ∧ s3.cfg = s2.cfg := by
         rw [← hs3]
         by_cases hc : ((if s2.cfg.initiator = true then false else s2.cfg.resetOnLogon) || logonResetFlag m && !s2.sentReset) = true
